@@ -185,6 +185,18 @@ pub fn tick() {
     if n > TICK_BUDGET.with(|c| c.get()) {
         panic!("{}", BUDGET_MSG);
     }
+    // the inspector is a user component too: every token fetch is a call-out, hence a scheduling point
+    if YIELD.with(|c| c.get()) {
+        crate::thrsim::sched_point();
+    }
+}
+
+/// Inspector save / rewind notifications: call-outs as well (scheduling points under thrsim).
+#[inline]
+pub fn inspector_event() {
+    if YIELD.with(|c| c.get()) {
+        crate::thrsim::sched_point();
+    }
 }
 
 pub fn begin_ticks(budget: u64) {
